@@ -94,10 +94,11 @@ structure FS where
   dats : List (Nat × Bytes) := []
   olds : List (Nat × Bytes) := []
   /-- GHOST (not a file; no operation reads it): the numbers of the data files whose stored bytes left the configured
-      retention — removed by `removeDatFile` without backup — or were shadowed: `LoadBlockIndex` O_CREATEd a new file with
-      that number in the main directory while the original sits in `oldat/` (the known finding
-      `backup-shadowed-by-new-file`). "Within the configured retention" for a written record = its data-file number is
-      not in this list (`Spec.BlockStoreMap.keyLost`). -/
+      retention: removed by `removeDatFile` without backup. (Before the repair of the finding `backup-shadowed-by-new-file`
+      also: `LoadBlockIndex` O_CREATEd a new file with that number in the main directory while the original sits in `oldat/`;
+      that branch of `createCur` is dead when `Gen.BlockDBFacts.restoresBackup` holds.) "Within the configured retention" for
+      a written record = its data-file number is not in this list (`Spec.BlockStoreMap.keyLost`);
+      `Props.C16.lost_outside_keep_window` bounds the list by the configured `keep`. -/
   lost : List Nat := []
   deriving DecidableEq, Repr
 
@@ -385,6 +386,16 @@ structure LoadAcc where
 
 def hasFlag (flags fl : Nat) : Bool := (flags / fl) % 2 = 1
 
+/-- the invalid-record branch of LoadBlockIndex, data-file part:
+    `if (b[0]&BLOCK_INDEX) != 0 { if idx := Uint32(b[28:32]); idx != 0xffffffff && idx > db.maxdatfileidx { db.maxdatfileidx = idx; db.maxdatfilepos = 0 } }`
+    — the data file of an invalid block still counts for the file to append to (repair of the file-number regression:
+    LoadBlockIndex used to fall back to a LOWER file number when every block of the newer files was invalid; whether the
+    source has the repair is the regenerated fact `Gen.BlockDBFacts.invalidCountsFile`) -/
+def bumpInvalid (a : LoadAcc) (flags : Nat) (b : Bytes) : LoadAcc :=
+  let d := if hasFlag flags BLOCK_INDEX then field b 28 32 else 0
+  if Gen.BlockDBFacts.invalidCountsFile ∧ d ≠ 0xffffffff ∧ d > a.maxdatfileidx
+  then { a with maxdatfileidx := d, maxdatfilepos := 0 } else a
+
 /-- the body of the `for` loop for one full 136-byte record `b` -/
 def loadRecord (env : Env) (a : LoadAcc) (b : Bytes) : LoadAcc :=
   let flags := (b.getD 0 0).toNat
@@ -392,6 +403,7 @@ def loadRecord (env : Env) (a : LoadAcc) (b : Bytes) : LoadAcc :=
   let hdr := (b.drop 56).take 80
   let blockHash := env.hash hdr
   if hasFlag flags BLOCK_INVALID then
+    let a := bumpInvalid a flags b
     -- `continue`: the unfixed code does not advance maxidxfilepos here
     if env.advInvalid then { a with maxidxfilepos := a.maxidxfilepos + RECSIZE } else a
   else
@@ -435,15 +447,25 @@ def loadCleanup (o : Opts) (maxdatfileidx : Nat) (fs : FS) : FS :=
     cleanupGo o 3 idx fs
   else fs
 
+/-- the opening of the current data file `m` in LoadBlockIndex:
+    `if Stat(main/m) fails { os.Rename(oldat/m, main/m) }; os.OpenFile(main/m, O_RDWR|O_CREATE)`.
+    The rename is the repair of the former finding `backup-shadowed-by-new-file` (whether the source has it is the regenerated
+    fact `Gen.BlockDBFacts.restoresBackup`); without it an empty file was created over the backup, which is what the ghost
+    `lost` records in the last branch. -/
+def createCur (fs : FS) (m : Nat) : FS :=
+  match AL.get fs.dats m with
+  | some _ => fs
+  | none =>
+    match (if Gen.BlockDBFacts.restoresBackup then AL.get fs.olds m else none) with
+    | some content => { fs with dats := AL.set fs.dats m content, olds := AL.del fs.olds m }
+    | none => { fs with dats := AL.set fs.dats m [],
+                        lost := if (AL.get fs.olds m).isSome then m :: fs.lost else fs.lost }
+
 /-- `NewBlockDBExt(dir, opts)` followed by `LoadBlockIndex` on the files left by earlier sessions -/
 def reopen (env : Env) (fs : FS) (o : Opts) : State × Out :=
   let o := if o.maxCached = 0 then { o with maxCached := 100 } else o
   let a := loadLoop env (fs.idx.length / RECSIZE + 1) fs.idx {}
-  -- os.OpenFile(dat_fname(maxdatfileidx), O_RDWR|O_CREATE)
-  let fs := match AL.get fs.dats a.maxdatfileidx with
-    | some _ => fs
-    | none => { fs with dats := AL.set fs.dats a.maxdatfileidx [],
-                        lost := if (AL.get fs.olds a.maxdatfileidx).isSome then a.maxdatfileidx :: fs.lost else fs.lost }
+  let fs := createCur fs a.maxdatfileidx
   let fs := loadCleanup o a.maxdatfileidx fs
   ({ fs := fs, opts := o, index := a.index, maxidxfilepos := a.maxidxfilepos, maxdatfilepos := a.maxdatfilepos,
      maxdatfileidx := a.maxdatfileidx, isOpen := true }, .walk a.walk.reverse)
